@@ -126,7 +126,7 @@ def rule1(ctx, prog, flows, cub, full, basic):
                 atoms = controlling_atoms(f, t.bb)
                 ok = any(isinstance(te, tuple) and te[0] == "call" and te[1].endswith("dijkstra::can_use_basic") and v is False for (te, v, a) in atoms)
                 ctx.require(ok, "R-C08-1", "guarded-full|" + b.short, "the full kernel in %s runs on the false edge of can_use_basic(..)" % b.short.split("::", 3)[-1], "the full kernel call in %s is not the alternative of can_use_basic(..)" % b.short, loc_str(t.span))
-    ctx.floor("R-C08-1", "can_use_basic_call_sites", n_sites, 3)
+    ctx.floor("R-C08-1", "can_use_basic_call_sites", n_sites, 1)
 
 
 def rule2(ctx, prog, flows, full, basic):
@@ -165,7 +165,7 @@ def rule2(ctx, prog, flows, full, basic):
             if set(ps0) != {"graph"}:
                 bad.append("graph argument carries %s" % sorted(ps0))
             ctx.require(not bad, "R-C08-2", "bind|%s|%s" % (b.short, short(tp).split("::")[-1]), "%s in %s gets its options from the same-named parameters of %s" % (short(tp).split("::")[-1], b.short.split("::", 3)[-1], root.short.split("::")[-1]), "%s in %s: %s" % (short(tp).split("::")[-1], b.short, "; ".join(bad)), loc_str(t.span))
-    ctx.floor("R-C08-2", "kernel_call_sites", n, 8)
+    ctx.floor("R-C08-2", "kernel_call_sites", n, 3)
 
 
 def rule3(ctx, prog, flows, full):
@@ -197,7 +197,7 @@ def rule3(ctx, prog, flows, full):
         if hit:
             ctx.violation("R-C08-3", "decision|" + fmt_desc(panic.shape(panic.norm(at["test"])))[:60], "the branch on %s depends on %s" % (fmt_desc(at["test"])[:80], hit), loc_str(blk.term.span))
     ctx.ok("R-C08-3", "decisions", "%d branch decisions other than the with_paths tests inspected" % n_sw, loc_str(full.span))
-    ctx.floor("R-C08-3", "branch_decisions", n_sw, 8)
+    ctx.floor("R-C08-3", "branch_decisions", n_sw, 4)
     # first_only: blocks controlled by a first_only test write neither dist nor seen
     n_fo = 0
     for blk in full.normal_blocks():
@@ -217,40 +217,51 @@ def rule4(ctx, prog, flows, full):
     ctx.rule("R-C08-4", "cutoff prune is the strict comparison candidate > cutoff; the target exit follows dist[v] = d")
     fl = flows.of(full)
     cut = full.param_local("cutoff")
-    found = False
-    for t in full.calls():
-        if t.callee and t.callee.short.endswith("Option::map_or") and t.args and t.args[0].place is not None:
-            sl = fl.slice_local(fl._op_reads(t.args[0]), data_only=True)
-            if L(cut) not in sl:
+    # every ordering comparison of the full kernel (or a closure of it) that has the cutoff value on one
+    # side: `match cutoff {Some(c) => cand > c, None => false}`, `cutoff.map_or(false, |c| cand > c)`,
+    # `cutoff.is_some_and(|c| cand > c)`, `if let Some(c) = cutoff { if cand > c {..} }` are all this shape
+    found = 0
+    bodies = [full] + prog.closures_of(full.path)
+    for cb in bodies:
+        cf = flows.of(cb)
+        for st in cb.stmts():
+            if st.k != "assign" or st.rv.k != "binop" or st.rv.j["op"] not in ("Gt", "Lt", "Ge", "Le"):
                 continue
-            found = True
-            d0 = panic.norm(fl.describe(t.args[1], depth=4))
-            dflt_false = d0[0] == "const" and d0[1].endswith("false")
-            clos = None
-            for a in t.args:
-                if a.place is not None and a.place.local in fl.closure_locals:
-                    clos = fl.closure_locals[a.place.local]
-            ok = False
-            why = "closure not found"
-            if clos:
-                cb = prog.bodies[clos]
-                cf = flows.of(cb)
-                defs = cb.assigns_to(0)
-                if len(defs) == 1 and getattr(defs[0][1], "rv", None) is not None and defs[0][1].rv.k == "binop":
-                    rv = defs[0][1].rv
-                    x, y = panic.norm(cf.describe(rv.ops[0], depth=6)), panic.norm(cf.describe(rv.ops[1], depth=6))
-                    # which operand is the closure parameter (the cutoff value)?
-                    pn = cb.local_name(2)
-                    sx, sy = fmt_desc(x), fmt_desc(y)
-                    op = rv.j["op"]
-                    if sy == pn and op == "Gt":
-                        ok = True
-                    elif sx == pn and op == "Lt":
-                        ok = True
-                    why = "prune when %s(%s, %s)" % (op, sx, sy)
-            ctx.require(ok and dflt_false, "R-C08-4", "cutoff-strict", "a candidate is pruned only when candidate > cutoff (strict), never without a cutoff", "cutoff prune is not the strict candidate > cutoff: %s, default=%s -- entries with distance == cutoff would be dropped or kept wrongly" % (why, fmt_desc(d0)), loc_str(t.span))
+            side = []
+            for o in st.rv.ops:
+                if o.place is None:
+                    side.append(False)
+                    continue
+                sl = flows.slice(cb.path, cf._op_reads(o), up=True, down=False, data_only=True, roots=(full.path,))
+                side.append((full.path, L(cut)) in sl)
+            if side[0] == side[1]:
+                continue
+            found += 1
+            op = st.rv.j["op"]
+            x, y = fmt_desc(panic.norm(cf.describe(st.rv.ops[0], depth=6))), fmt_desc(panic.norm(cf.describe(st.rv.ops[1], depth=6)))
+            strict = (op == "Gt" and side[1]) or (op == "Lt" and side[0])
+            ctx.require(strict, "R-C08-4", "cutoff-strict|%d" % found, "a candidate is pruned only when candidate > cutoff (strict): %s(%s, %s)" % (op, x, y), "cutoff prune is not the strict candidate > cutoff: prune when %s(%s, %s) -- entries with distance == cutoff would be dropped or kept wrongly" % (op, x, y), loc_str(st.span))
+            # without a cutoff nothing is pruned: the flag has no constant-true definition, and a closure
+            # form gets `false` as its default
+            if cb.kind == "closure":
+                for (pp, s_) in flows.closure_sites(cb.path):
+                    pf = flows.of(pp)
+                    cl = pf.copies_of(s_.lhs.local)
+                    for t in pf.b.calls():
+                        if t.callee and any(a.place is not None and a.place.local in cl for a in t.args):
+                            last = t.callee.short.split("::")[-1]
+                            if last in ("map_or", "map_or_else"):
+                                d0 = panic.norm(pf.describe(t.args[1], depth=4))
+                                ctx.require(d0[0] == "const" and d0[1].endswith("false"), "R-C08-4", "cutoff-default", "without a cutoff nothing is pruned (default false)", "without a cutoff the prune flag defaults to %s" % fmt_desc(d0), loc_str(t.span))
+            else:
+                flag = cf.copies_of(st.lhs.local)
+                for l in list(flag):
+                    for (dbb, d) in cb.assigns_to(l):
+                        rv = getattr(d, "rv", None)
+                        if rv is not None and rv.k == "use" and rv.ops[0].is_const() and rv.ops[0].const_int() == 1:
+                            ctx.violation("R-C08-4", "cutoff-default", "the prune flag is set to a constant `true` on a path without a comparison with the cutoff", loc_str(d.span))
     if not found:
-        ctx.anchor_lost("R-C08-4", "cutoff.map_or(false, |c| candidate > c) in the full kernel")
+        ctx.anchor_lost("R-C08-4", "an ordering comparison between a candidate distance and the cutoff in the full kernel")
     # the cutoff may only decide the prune: it must not flow (as data) into distances, seen marks or heap entries
     for nm in ("dist", "seen", "fringe"):
         ls = full.locals_named(nm)
@@ -300,24 +311,26 @@ def rule5(ctx, prog, flows):
     cp = prog.one("ShortestPathInfo::contains_path_through_node")
     used = any(t2.callee and t2.callee.target_path(prog) == cp.path for c in [b] + prog.closures_of(b.path) for t2 in c.calls())
     ctx.require(used, "R-C08-5", "filter", "results are filtered with contains_path_through_node", None, loc_str(b.span))
-    cf = flows.of(cp)
-    idx = [t2 for t2 in cp.calls() if t2.callee and t2.callee.short.endswith("Index::index") and len(t2.args) > 1]
     ok = False
     why = ""
-    for t2 in idx:
-        d = panic.norm(cf.describe(t2.args[1], depth=8))
-        if d[0] == "adt" and d[1].endswith("Range::Range"):
-            lo, hi = d[2][0], d[2][1]
-            lo_ok = lo[0] == "const" and lo[1].startswith("const 1_") or (lo[0] == "const" and "1_usize" in lo[1])
-            hs = fmt_desc(hi)
-            hi_ok = False
-            # hi is the .0 of a checked Sub(len(path), 1)
-            for s in cp.stmts():
-                if s.k == "assign" and s.rv.k == "binop" and s.rv.j["op"].startswith("Sub"):
-                    a0 = panic.norm(cf.describe(s.rv.ops[0], depth=6))
-                    a1 = s.rv.ops[1]
-                    if a0[0] == "call" and a0[1].endswith("::len") and a1.is_const() and a1.const_int() == 1:
-                        hi_ok = True
-            ok = lo_ok and hi_ok
-            why = "path[%s..%s]" % (fmt_desc(lo), hs)
+    # the slice expression may sit in the function or in a closure of it (`paths.iter().any(|p| ..)`)
+    for cpb in [cp] + prog.closures_of(cp.path):
+        cf = flows.of(cpb)
+        idx = [t2 for t2 in cpb.calls() if t2.callee and t2.callee.short.endswith("Index::index") and len(t2.args) > 1]
+        for t2 in idx:
+            d = panic.norm(cf.describe(t2.args[1], depth=8))
+            if d[0] == "adt" and d[1].endswith("Range::Range"):
+                lo, hi = d[2][0], d[2][1]
+                lo_ok = lo[0] == "const" and lo[1].startswith("const 1_") or (lo[0] == "const" and "1_usize" in lo[1])
+                hs = fmt_desc(hi)
+                hi_ok = False
+                # hi is the .0 of a checked Sub(len(path), 1) -- the length possibly held in a variable
+                for s in cpb.stmts():
+                    if s.k == "assign" and s.rv.k == "binop" and s.rv.j["op"].startswith("Sub"):
+                        a0 = panic.norm(panic.expand_names(cf, panic.norm(cf.describe(s.rv.ops[0], depth=6))))
+                        a1 = s.rv.ops[1]
+                        if a0[0] == "call" and a0[1].endswith("::len") and a1.is_const() and a1.const_int() == 1:
+                            hi_ok = True
+                ok = ok or (lo_ok and hi_ok)
+                why = "path[%s..%s]" % (fmt_desc(lo), hs)
     ctx.require(ok, "R-C08-5", "interior", "the node must lie strictly inside a path: path[1 .. len-1]", "contains_path_through_node looks at %s: endpoints would count" % why, loc_str(cp.span))
